@@ -161,7 +161,7 @@ func edgeTrace(c *an.Ctx) *edgeTraceResult {
 					key := classify(u.key, st)
 					// (a struct entry is stored back under the key it was read with)
 					if u.loc.sub >= 0 {
-						if k0 := entryKeyOf(x); k0 == nil || classify(k0, st) != key {
+						if k0 := entryKeyOf(x); k0 == nil || classify(k0, st) != key || staleEntry(x) {
 							events = append(events, fmt.Sprintf("%s[%s]+=replaces", u.role, key))
 							continue
 						}
